@@ -132,17 +132,23 @@ func writeText(al align.Alignment, c cfg) string {
 }
 
 func parseFrom(r io.Reader, c cfg) (al align.Alignment, err error) {
+	return parseFromAlphabet(r, c, align.BOTH)
+}
+
+// parseFromAlphabet: alphabet = align.BOTH (detected, the parsers' default) or the alphabet the
+// caller declares (Parser.Alphabet: "considers alignment as nucleotides / aminoacids")
+func parseFromAlphabet(r io.Reader, c cfg, alphabet int) (al align.Alignment, err error) {
 	switch c.Format {
 	case "fasta":
-		al, err = fasta.NewParser(r).Parse()
+		al, err = fasta.NewParser(r).Alphabet(alphabet).Parse()
 	case "phylip":
-		al, err = phylip.NewParser(r, c.Strict).Parse()
+		al, err = phylip.NewParser(r, c.Strict).Alphabet(alphabet).Parse()
 	case "nexus":
-		al, err = nexus.NewParser(r).Parse()
+		al, err = nexus.NewParser(r).Alphabet(alphabet).Parse()
 	case "clustal":
-		al, err = clustal.NewParser(r).Parse()
+		al, err = clustal.NewParser(r).Alphabet(alphabet).Parse()
 	case "stockholm":
-		al, err = stockholm.NewParser(r).Parse()
+		al, err = stockholm.NewParser(r).Alphabet(alphabet).Parse()
 	default:
 		panic("harness: unknown format " + c.Format)
 	}
@@ -267,6 +273,16 @@ func roundTrip(al align.Alignment, want model, c cfg) (align.Alignment, error) {
 	}
 	if err = same(got, want); err != nil {
 		return nil, fmt.Errorf("%s: write then parse changes the alignment: %v\ntext: %s", c, err, excerpt(text))
+	}
+	// declaring to the parser the alphabet that it detects changes nothing
+	if want.Alphabet == align.NUCLEOTIDS || want.Alphabet == align.AMINOACIDS {
+		got2, err := parseFromAlphabet(strings.NewReader(text), c, want.Alphabet)
+		if err != nil {
+			return nil, fmt.Errorf("%s: the parser, told that the alphabet is %s (the one it detects), refuses the writer's output: %v\ntext: %s", c, alphaName(want.Alphabet), err, excerpt(text))
+		}
+		if err = same(got2, want); err != nil {
+			return nil, fmt.Errorf("%s: write then parse with the alphabet declared as %s (the one detected): %v\ntext: %s", c, alphaName(want.Alphabet), err, excerpt(text))
+		}
 	}
 	return got, nil
 }
